@@ -59,6 +59,149 @@ def packable(t):
     return False
 
 
+# ---- binary Micheline of data expressions, written here (not pytezos' forge): the UNPACK idiom builds its inputs with it --------
+DATA_TAGS = {'False': 3, 'Elt': 4, 'Left': 5, 'None': 6, 'Pair': 7, 'Right': 8, 'Some': 9, 'True': 10, 'Unit': 11}
+
+
+def zarith(v):
+    """signed zarith: 6 bits + sign bit in the first byte, then groups of 7 bits, high bit = more"""
+    a, out = abs(v), bytearray()
+    first = (a & 0x3f) | (0x40 if v < 0 else 0)
+    a >>= 6
+    out.append(first | (0x80 if a else 0))
+    while a:
+        g = a & 0x7f
+        a >>= 7
+        out.append(g | (0x80 if a else 0))
+    return bytes(out)
+
+
+def _len4(b):
+    return len(b).to_bytes(4, 'big')
+
+
+def forge_data(m):
+    """binary Micheline of a data expression (JSON shape; `raw`: bytes pasted as they are, `text`: a string node given as bytes,
+    `tag`: a primitive given by its tag byte)"""
+    if isinstance(m, list):
+        body = b''.join(forge_data(x) for x in m)
+        return b'\x02' + _len4(body) + body
+    if 'raw' in m:
+        return m['raw']
+    if 'int' in m:
+        return b'\x00' + zarith(int(m['int']))
+    if 'string' in m:
+        return b'\x01' + _len4(m['string'].encode()) + m['string'].encode()
+    if 'text' in m:
+        return b'\x01' + _len4(m['text']) + m['text']
+    if 'bytes' in m:
+        b = bytes.fromhex(m['bytes'])
+        return b'\x0a' + _len4(b) + b
+    tag = m['tag'] if 'tag' in m else DATA_TAGS[m['prim']]
+    args, annots = m.get('args', []), m.get('annots')
+    n = len(args)
+    if n < 3:
+        head = bytes([3 + 2 * n + (1 if annots is not None else 0), tag]) + b''.join(forge_data(a) for a in args)
+        return head + (_len4(annots) + annots if annots is not None else b'')
+    body = b''.join(forge_data(a) for a in args)
+    an = annots or b''
+    return bytes([9, tag]) + _len4(body) + body + _len4(an) + an
+
+
+def scan_texts(data):
+    """the string nodes of a well-delimited binary Micheline expression (b'' if it does not parse): the texts that can reach the
+    timestamp reader when `data` is unpacked"""
+    out = []
+
+    def arr(p):
+        if p + 4 > len(data):
+            raise ValueError
+        n = int.from_bytes(data[p:p + 4], 'big')
+        if p + 4 + n > len(data):
+            raise ValueError
+        return data[p + 4:p + 4 + n], p + 4 + n
+
+    def seq(p):
+        body, end = arr(p)
+        p += 4
+        while p < end:
+            p = node(p)
+        if p != end:
+            raise ValueError
+        return p
+
+    def node(p):
+        tag = data[p]
+        p += 1
+        if tag == 0:
+            while data[p] & 0x80:
+                p += 1
+            return p + 1
+        if tag in (1, 10):
+            v, q = arr(p)
+            if tag == 1:
+                out.append(v)
+            return q
+        if tag == 2:
+            return seq(p)
+        if 3 <= tag <= 9:
+            n, an = (tag - 3) // 2, (tag - 3) % 2 == 1
+            p += 1
+            if n == 3:
+                p = seq(p)
+            else:
+                for _ in range(n):
+                    p = node(p)
+            if an or n == 3:
+                _, p = arr(p)
+            return p
+        raise ValueError
+
+    try:
+        if node(0) != len(data):
+            return []
+    except (ValueError, IndexError):
+        return []
+    return out
+
+
+def texts_of(code):
+    """every text of a program that could be read as a timestamp by an UNPACK: the string literals (PACK turns them into string
+    nodes) and the string nodes inside the byte literals that start with 05"""
+    out = set()
+
+    def walk(x):
+        if isinstance(x, list):
+            for y in x:
+                walk(y)
+        elif isinstance(x, dict):
+            if 'string' in x:
+                out.add(x['string'].encode())
+            elif 'bytes' in x:
+                b = bytes.fromhex(x['bytes'])
+                if b[:1] == b'\x05':
+                    out.update(scan_texts(b[1:]))
+            for y in x.get('args', []):
+                walk(y)
+    walk(code)
+    return sorted(out)
+
+
+def unpackable(t):
+    """the types UNPACK is modelled for: packable, sets / maps keyed by a simple comparable type"""
+    if t[0] in ('unit', 'bool', 'int', 'nat', 'mutez', 'timestamp', 'string', 'bytes'):
+        return True
+    if t[0] in ('option', 'list'):
+        return unpackable(t[1])
+    if t[0] == 'set':
+        return t[1] in SET_ELT or t[1] == ('unit',)
+    if t[0] in ('or', 'pair'):
+        return unpackable(t[1]) and unpackable(t[2])
+    if t[0] == 'map':
+        return (t[1] in SET_ELT or t[1] == ('unit',)) and unpackable(t[2])
+    return False
+
+
 def comb_leaves(t):
     """component types along the right spine of a pair type (a non-pair is its own single leaf)"""
     out = []
@@ -372,6 +515,7 @@ class Gen:
         add(0.9, 'KEYS', lambda: self._key_idiom(st))
         add(2.2, 'CONTRACTS', lambda: self._contract_idiom(st))
         add(1.6, 'PACKING', lambda: self._pack_idiom(st))
+        add(2.0, 'UNPACKING', lambda: self._unpack_idiom(st))
         if not self.in_lambda:
             add(0.6, 'SELF', lambda: self._self(st))
         if depth > 0:
@@ -925,6 +1069,192 @@ class Gen:
         self.shape('PACK of ' + t[0])
         self.note('PACK')
         return [{'prim': 'PUSH', 'args': [ty_mich(t), val]}, {'prim': 'PACK'}], [('bytes',)] + st
+
+
+    # ---- UNPACK ---------------------------------------------------------------------------------------------------------
+    TS_TEXTS = ['1970-01-01T00:00:01Z', '2020-02-29T12:30:00Z', '2021-12-31T23:59:59+01:00', '1969-12-31T23:59:59Z', '2019-02-29T00:00:00Z',
+                '2020-01-01 00:00:00Z', '2020-01-01T00:00:00', '123', '-5', '0', '', 'abc', ' 1', '1_000', '+7', '0x10', '1e3',
+                '2020-01-01T00:00:00.5Z', '9999-12-31T23:59:59Z']
+
+    def alt_form(self, t, v):
+        """the expression `v` (nested binary `Pair`s, as gen_value writes it) of type `t` in another spelling the protocol reads as
+        the same value: right combs as `Pair x1 … xn` or `{x1; …; xn}`, possibly only partly flattened"""
+        r = self.rng
+        p = t[0]
+        if p == 'pair':
+            comps, ty, cur = [], t, v
+            # walk down the right spine while the type is a pair; stop early at random (partial flattening)
+            while ty[0] == 'pair' and isinstance(cur, dict) and cur.get('prim') == 'Pair' and (not comps or r.random() < 0.75):
+                comps.append(self.alt_form(ty[1], cur['args'][0]))
+                ty, cur = ty[2], cur['args'][1]
+            comps.append(self.alt_form(ty, cur))
+            if len(comps) == 2 and r.random() < 0.6:
+                return {'prim': 'Pair', 'args': comps}
+            as_seq = r.random() < 0.5
+            self.shape(f'UNPACK pair as {"sequence" if as_seq else "n-ary Pair"} of {min(len(comps), 4)}{"+" if len(comps) > 4 else ""}')
+            return comps if as_seq else {'prim': 'Pair', 'args': comps}
+        if p in ('option', 'or') and isinstance(v, dict) and v.get('args'):
+            return {'prim': v['prim'], 'args': [self.alt_form(t[1] if v['prim'] in ('Some', 'Left') else t[2], v['args'][0])]}
+        if p in ('list', 'set'):
+            return [self.alt_form(t[1], x) for x in v]
+        if p == 'map':
+            return [{'prim': 'Elt', 'args': [e['args'][0], self.alt_form(t[2], e['args'][1])]} for e in v]
+        return v
+
+    def broken_expr(self, t):
+        """an expression that is NOT a value of type `t` (or is one only for a lenient reader), with the reason"""
+        r = self.rng
+        P = lambda prim, *args: {'prim': prim, 'args': list(args)} if args else {'prim': prim}
+        I = lambda n: {'int': str(n)}
+        ok = self.gen_value(t, depth=2)
+        kinds = ['annotated', 'control-char', 'other-type', 'arity', 'unknown-prim', 'node-tag', 'non-minimal-int', 'negative-zero',
+                 'length-too-long', 'length-too-short']
+        p = t[0]
+        if p == 'pair':
+            kinds += ['nary-over-nonpair', 'annotated-pair', 'one-component', 'empty-seq', 'too-many']
+        if p in ('nat', 'mutez'):
+            kinds += ['negative', 'negative', 'range']
+        if p in ('set', 'map'):
+            kinds += ['unsorted', 'unsorted', 'duplicate', 'duplicate']
+        if p == 'timestamp':
+            kinds += ['text', 'text', 'text', 'text']
+        if p == 'string':
+            kinds += ['control-char', 'control-char', 'non-ascii', 'invalid-utf8', 'newline']
+        k = r.choice(kinds)
+        self.shape('UNPACK input: ' + k)
+        if k == 'annotated':
+            m = dict(ok) if isinstance(ok, dict) and 'prim' in ok else {'prim': 'Unit'}
+            return {**m, 'annots': r.choice([b'%a', b'@v', b':t', b'%a @b', b'\xff'])}
+        if k == 'annotated-pair':
+            return {**ok, 'annots': b'%x'} if isinstance(ok, dict) else ok
+        if k in ('control-char', 'non-ascii', 'invalid-utf8', 'newline'):
+            return {'text': {'control-char': r.choice([b'\x01', b'a\tb', b'\x7f', b'ab\x00', b'\r']), 'non-ascii': 'é'.encode(),
+                             'invalid-utf8': b'\xff\xfe', 'newline': b'a\nb'}[k]}
+        if k == 'other-type':
+            other = r.choice([P('Unit'), I(5), {'string': 'x'}, {'bytes': '00'}, [], [I(1)], P('Some', I(1)), P('Pair', I(1), I(2)), P('Left', P('Unit')), P('None')])
+            return other
+        if k == 'arity':
+            return r.choice([P('Unit', I(1)), P('Some'), P('Some', I(1), I(2)), P('None', I(1)), P('Left'), P('True', P('Unit')), P('Pair', I(1)), P('Elt', I(1), I(2))])
+        if k == 'unknown-prim':
+            return {'tag': r.choice([158, 159, 200, 255, 0, 1, 2]), 'args': []}
+        if k == 'node-tag':
+            return {'raw': bytes([r.choice([11, 12, 127, 255])]) + r.bytes_(r.choice([0, 1, 4]))}
+        if k == 'non-minimal-int':
+            return {'raw': b'\x00' + r.choice([b'\x80\x00', b'\x81\x80\x00', b'\xc0\x00', b'\xbf\x80\x80\x00'])}
+        if k == 'negative-zero':
+            return {'raw': b'\x00\x40'}
+        if k in ('length-too-long', 'length-too-short'):
+            body = b''.join(forge_data(I(i)) for i in range(r.choice([1, 2, 3])))
+            n = len(body) + (r.choice([1, 2, 100, 2**31]) if k == 'length-too-long' else -1)
+            return {'raw': b'\x02' + max(n, 0).to_bytes(4, 'big') + body}
+        if k == 'nary-over-nonpair':      # `Pair 1 2 3` at `pair int (list int)`: the right component is not a pair
+            return r.choice([P('Pair', I(1), I(2), I(3)), [I(1), I(2), I(3)], P('Pair', I(1), P('Elt', I(1), I(1)), P('Elt', I(2), I(1)))])
+        if k == 'one-component':
+            return r.choice([P('Pair', I(1)), [I(1)]])
+        if k == 'empty-seq':
+            return []
+        if k == 'too-many':
+            return self.alt_form(t, ok) if r.random() < 0.3 else {'prim': 'Pair', 'args': [I(1)] * r.choice([5, 9])}
+        if k == 'negative':
+            return I(-r.choice([1, 2, 64, 2**70]))
+        if k == 'range':
+            return I(r.choice([2**63 - 1, 2**63, 2**63 + 1, 2**64]))
+        if k in ('unsorted', 'duplicate'):
+            kt = t[1]
+            ks = self.distinct_sorted_keys(kt, r.choice([2, 3, 4]))
+            if len(ks) < 2:
+                ks = ks * 2
+            elif k == 'unsorted':
+                i = r.randrange(len(ks) - 1)
+                ks[i], ks[i + 1] = ks[i + 1], ks[i]
+            else:
+                ks.insert(r.randrange(len(ks)), ks[r.randrange(len(ks))])
+            return ks if p == 'set' else [P('Elt', x, self.gen_value(t[2], 1)) for x in ks]
+        if k == 'text':
+            return {'string': r.choice(self.TS_TEXTS)}
+        return ok
+
+    def _unpack_idiom(self, st):
+        """UNPACK of bytes made by PACK in the same program (at the same and at another type) and of literal byte strings: valid
+        encodings in the optimized and in the readable-equivalent spellings, truncated ones, trailing garbage, a missing or
+        different first byte, ill-typed expressions, non-minimal integers, annotated constructors, unsorted collections …"""
+        r = self.rng
+        P = lambda prim, *args: {'prim': prim, 'args': list(args)} if args else {'prim': prim}
+        t = self.gen_packable_type(2)
+        while not unpackable(t):
+            t = self.gen_packable_type(1)
+        kind = r.choice(['roundtrip', 'roundtrip', 'roundtrip', 'wrong-type', 'literal', 'literal', 'alt-form', 'alt-form', 'mangled', 'mangled',
+                         'broken', 'broken', 'broken', 'nested-broken', 'timestamp-text', 'collection-order'])
+        self.note('UNPACK')
+        self.shape('UNPACK ' + kind)
+        if kind in ('roundtrip', 'wrong-type'):
+            code, _ = self._pack_idiom([])
+            src = ty_from_mich(code[0]['args'][0])
+            if kind == 'roundtrip' and unpackable(src):
+                t = src
+            elif kind == 'wrong-type':
+                # a neighbouring type: the same expression is a value of it, or is not
+                t = r.choice([t, ('int',), ('nat',), ('timestamp',), ('mutez',), ('string',), ('bytes',), ('option', src) if unpackable(src) else ('unit',),
+                              ('list', src) if unpackable(src) else ('unit',), ('pair', ('int',), ('int',)), ('set', ('int',)), ('list', ('int',))])
+            return code + [P('UNPACK', ty_mich(t))], [('option', t)] + st
+        if kind == 'collection-order':
+            # a set / map literal inside the bytes: strictly ascending (accepted), swapped neighbours, a duplicate
+            kt = r.choice(SET_ELT)
+            t = r.choice([('set', kt), ('map', kt, ('unit',)), ('list', ('set', kt)), ('pair', ('set', kt), ('int',))])
+            ks = self.distinct_sorted_keys(kt, r.choice([2, 3, 4]))
+            how = r.choice(['ascending', 'swapped', 'swapped', 'duplicate', 'duplicate']) if len(ks) >= 2 else 'ascending'
+            if how == 'swapped':
+                i = r.randrange(len(ks) - 1)
+                ks[i], ks[i + 1] = ks[i + 1], ks[i]
+            elif how == 'duplicate':
+                j = r.randrange(len(ks))
+                ks.insert(j, ks[j])
+            self.shape('UNPACK collection keys: ' + how)
+            coll = ks if t[0] != 'map' else [P('Elt', x, P('Unit')) for x in ks]
+            expr = {'set': coll, 'map': coll, 'list': [coll], 'pair': P('Pair', coll, {'int': '0'})}[t[0]]
+            data = b'\x05' + forge_data(expr)
+            return [P('PUSH', P('bytes'), {'bytes': data.hex()}), P('UNPACK', ty_mich(t))], [('option', t)] + st
+        if kind == 'timestamp-text':
+            # a timestamp in its readable form (and texts that are not timestamps), alone and inside containers
+            txt = {'string': r.choice(self.TS_TEXTS)}
+            self.shape('UNPACK timestamp text: ' + ('RFC 3339' if 'T' in txt['string'] else ('digits' if txt['string'].lstrip('-').isdigit() else 'other')))
+            t, expr = r.choice([(('timestamp',), txt), (('option', ('timestamp',)), P('Some', txt)), (('pair', ('timestamp',), ('int',)), P('Pair', txt, {'int': '7'})),
+                                (('list', ('timestamp',)), [{'int': '5'}, txt]), (('set', ('timestamp',)), [txt]),
+                                (('map', ('timestamp',), ('unit',)), [P('Elt', txt, P('Unit'))])])
+            data = b'\x05' + forge_data(expr)
+            return [P('PUSH', P('bytes'), {'bytes': data.hex()}), P('UNPACK', ty_mich(t))], [('option', t)] + st
+        v = self.gen_value(t, depth=3)
+        if kind == 'literal':
+            data = b'\x05' + forge_data(v)
+        elif kind == 'alt-form':
+            if t[0] != 'pair' and r.random() < 0.7:
+                for _ in range(20):
+                    t = self.gen_comb_type()
+                    if unpackable(t):
+                        break
+                else:
+                    t = comb_of([('int',), ('nat',), ('string',), ('option', ('bytes',))][:r.choice([2, 3, 4])])
+                v = self.gen_value(t, depth=3)
+            data = b'\x05' + forge_data(self.alt_form(t, v))
+        elif kind == 'mangled':
+            good = b'\x05' + forge_data(self.alt_form(t, v))
+            how = r.choice(['truncated', 'truncated', 'trailing', 'trailing', 'no-prefix', 'other-prefix', 'empty', 'only-prefix', 'doubled-prefix'])
+            self.shape('UNPACK input: ' + how)
+            data = {'truncated': good[:max(1, len(good) - r.choice([1, 1, 2, 4]))], 'trailing': good + r.choice([b'\x00', b'\x03\x0b', b'\xff', good[1:]]),
+                    'no-prefix': good[1:], 'other-prefix': bytes([r.choice([0, 4, 6, 255])]) + good[1:], 'empty': b'', 'only-prefix': b'\x05',
+                    'doubled-prefix': b'\x05' + good}[how]
+        elif kind == 'broken':
+            data = b'\x05' + forge_data(self.broken_expr(t))
+        else:      # a broken component deep inside a valid container
+            inner = self.gen_packable_type(1)
+            while not unpackable(inner):
+                inner = self.gen_packable_type(1)
+            bad = self.broken_expr(inner)
+            t, expr = r.choice([(('option', inner), P('Some', bad)), (('list', inner), [self.gen_value(inner, 1), bad]),
+                                (('pair', ('int',), inner), P('Pair', {'int': '1'}, bad)), (('or', ('unit',), inner), P('Right', bad)),
+                                (('map', ('int',), inner), [P('Elt', {'int': '1'}, self.gen_value(inner, 1)), P('Elt', {'int': '2'}, bad)])])
+            data = b'\x05' + forge_data(expr)
+        return [P('PUSH', P('bytes'), {'bytes': data.hex()}), P('UNPACK', ty_mich(t))], [('option', t)] + st
 
     def _hash_idiom(self, st):
         """hash a pushed byte string (lengths around the block sizes of the five functions), sometimes twice"""
